@@ -3,7 +3,8 @@
    Print Assumptions.  Model: C05/Model.v (wheel + heap + API side), reference
    specification: C05/Spec.v (a multiset of pending timers). *)
 From Coq Require Import ZArith List Bool Sorted.
-From FV Require Import C05.Model C05.Spec C05.Geom C05.WheelInv C05.Refine C05.Machine C05.SpecFacts C05.Proofs.
+From FV Require Import C05.Model C05.Spec C05.Geom C05.WheelInv C05.Refine C05.Machine C05.SpecFacts C05.Proofs
+  C05.HeapArr C05.HeapOps C05.HeapRefine.
 Import ListNotations.
 Open Scope Z_scope.
 
@@ -103,6 +104,63 @@ Theorem c05_heap_order : forall ops now l,
 Proof. exact heap_order. Qed.
 Print Assumptions c05_heap_order.
 
+(* ---- the heap timer with its real array (HeapArr.v: timerHeap's Swap/Push/Pop index
+   updates and container/heap's up/down/Push/Pop/Remove/Fix transcribed) ---- *)
+
+(* After EVERY history of API calls and worker steps: the array is a heap under Less
+   (no child is Less than its parent), node.index is the position of every node in the
+   array and -1 for every node outside it, ids in the array are distinct. *)
+Theorem c05_heap_array_inv : forall ops now,
+  let s := fst (arun (ainit now) ops) in
+  hp (aarr s) (length (aarr s)) /\ idx_ok (aarr s) /\
+  Forall (fun x => hidx x = -1) (aoutside s) /\ NoDup (map (fun x => nid (hn x)) (aarr s)).
+Proof. exact heap_array_inv. Qed.
+Print Assumptions c05_heap_array_inv.
+
+(* heap.Remove(h, i) on a well-formed array takes out exactly the node at position i
+   (and gives it index -1), keeps the heap order and the index fields of the others. *)
+Theorem c05_heap_remove_exact : forall l i,
+  harr_ok l -> (i < length l)%nat ->
+  let '(l', x) := heap_remove l i in
+  harr_ok l' /\ hn x = hn (hget l i) /\ hidx x = (-1)%Z /\
+  Permutation.Permutation (map hn l) (hn x :: map hn l') /\ length l' = (length l - 1)%nat.
+Proof. exact heap_remove_spec. Qed.
+Print Assumptions c05_heap_remove_exact.
+
+(* heap.Pop takes out the root, which is a minimum under Less; heap.Push adds the node. *)
+Theorem c05_heap_pop_root : forall l,
+  harr_ok l -> l <> [] ->
+  let '(l', x) := heap_pop l in
+  harr_ok l' /\ hn x = hn (hget l 0) /\ hidx x = (-1)%Z /\
+  Permutation.Permutation (map hn l) (hn x :: map hn l') /\ length l' = (length l - 1)%nat.
+Proof. exact heap_pop_spec. Qed.
+Print Assumptions c05_heap_pop_root.
+
+Theorem c05_heap_root_min : forall l,
+  harr_ok l -> l <> [] -> forall y, In y l -> hle (hget l 0) y.
+Proof. exact heap_pop_min. Qed.
+Print Assumptions c05_heap_root_min.
+
+Theorem c05_heap_push : forall l x,
+  harr_ok l ->
+  harr_ok (heap_push l x) /\ Permutation.Permutation (map hn (heap_push l x)) (x :: map hn l) /\
+  length (heap_push l x) = S (length l).
+Proof. exact heap_push_spec. Qed.
+Print Assumptions c05_heap_push.
+
+(* Refinement, every history: the array scheduler gives the same answers as the abstract
+   heap scheduler of Model.v (the probe apart, which shows the array), hence as the
+   pending-multiset specification: every heap theorem of C05 and C06 transfers. *)
+Theorem c05_heap_array_refines : forall ops now,
+  Forall2 out_eqp (snd (arun (ainit now) ops)) (snd (run (init_heap now) ops)).
+Proof. exact heap_array_refines. Qed.
+Print Assumptions c05_heap_array_refines.
+
+Theorem c05_heap_array_refines_spec : forall ops now,
+  Forall2 out_eq (snd (arun (ainit now) ops)) (snd (srun (sinit false now) ops)).
+Proof. exact heap_array_refines_spec. Qed.
+Print Assumptions c05_heap_array_refines_spec.
+
 (* non-vacuity: the design's failing inputs, now computed by the model — position 1000,
    delay 5 fires during tick 1005; position 16000, delay 500 (slot 0 of level 1) fires
    during tick 16500; position 2^32-6, delay 10 fires 4 ticks after the wrap; a periodic
@@ -124,6 +182,12 @@ Example c05_example_wrap :
   ex_run (2 ^ 32 - 6) [Start 10; HandleAdd; Pass 9; Tick; Pass 1; Tick; Every 3; HandleAdd; Pass 9; Tick]
   = [OId false 1; OFlag true; ONone; ODeliv []; ONone; ODeliv [(1, 10)];
      OId false 2; OFlag true; ONone; ODeliv [(2, 13); (2, 16); (2, 19)]].
+Proof. vm_compute. reflexivity. Qed.
+
+Example c05_example_heap_array :
+  map (fun x => (nid (hn x), hidx x))
+      (aarr (fst (arun (ainit 0) [Start 9; Start 3; Start 5; Start 1; HandleAdd; HandleAdd; HandleAdd; HandleAdd; Cancel 2; HandleDel])))
+  = [(4, 0); (1, 1); (3, 2)]%Z.
 Proof. vm_compute. reflexivity. Qed.
 
 Example c05_example_hyps :
